@@ -114,7 +114,9 @@ impl<'a> Dfa<'a> {
             let edge_idx = self.graph.find_edge(current_state, next_state).unwrap();
             let current_grapheme = self.graph.edge_weight(edge_idx).unwrap();
 
-            if current_grapheme.value() != grapheme.value() {
+            // A converted character class like \d must not be confused with the literal
+            // characters '\\' and 'd' which a repeated substring may consist of.
+            if current_grapheme.chars() != grapheme.chars() {
                 continue;
             }
 
@@ -222,7 +224,7 @@ impl<'a> Dfa<'a> {
             for parent_state in direct_parent_states {
                 let edge = self.graph.find_edge(parent_state, state).unwrap();
                 let grapheme = self.graph.edge_weight(edge).unwrap();
-                if grapheme.value() == label.value()
+                if grapheme.chars() == label.chars()
                     && (grapheme.maximum() == label.maximum()
                         || grapheme.minimum() == label.minimum())
                 {
